@@ -38,6 +38,12 @@ pub struct FnCtx {
     pub closure_pub_params: HashMap<String, Vec<bool>>,
     /// immutable `let x = [a, b, ..];` bindings: x is an array of that (syntactic) length
     pub array_lits: HashMap<BindId, usize>,
+    /// CHOICE-VAR: `let c = <expr containing ct_eq / ct_ne / another choice variable>;` — c is a `subtle::Choice`
+    pub choice_vars: HashSet<BindId>,
+    /// ITER-VAR: immutable `let it = <iterator expression with a known trip count>;`
+    pub iter_vars: HashMap<BindId, crate::walk::IterInfo>,
+    /// GUARD-RETURN: position of the one `return` that is modelled by putting the rest of the function into the else arm
+    pub allow_return_at: Option<(usize, usize)>,
     /// >0 while inside a loop / closure body (a `return`/`break`/`continue` there is an exit)
     pub depth_loop: u32,
     /// >0 while inside code controlled by a secret (arms of rejected / one-hot branches, secret loops)
